@@ -51,6 +51,11 @@ def is_nameplate_key(sc, t, before):
 
 def run(ctx):
     model = ctx.model
+    from .. import roles as _rolesmod
+    shared.r_callers(ctx, "R07.callers", _rolesmod.get(model).release_op, ("release",),
+                     "a claim is ended although its side sent no release")
+    shared.r_collation(ctx, "R07.exact", ('nameplates', 'nameplate_sides'),
+                       'releasing one name ends the claim on another')
     shared.r_lookup(ctx, "R07.lookup", ('nameplates', 'nameplate_sides'))
     shared.r_startup(ctx, "R07.startup", ('nameplates', 'nameplate_sides'),
                      "a claim is ended by something other than its own side's release, expiry or the deletion of the mailbox")
